@@ -6,7 +6,7 @@
    All statements are for every model (object graph given by arbitrary functions), every
    expression tree, every start object, name list, target type, fuel, and for both forms of
    the visited key (kf = true: the repaired key with first_element; kf = false: the old key). *)
-From TxV Require Import Core.Base Gen.SrcRrel Model.RrelSyntax Model.Rrel Proofs.RrelProofs.
+From TxV Require Import Core.Base Gen.SrcRrel Model.RrelSyntax Model.Rrel Proofs.RrelProofs Proofs.RrelComplete.
 
 (* ---------------------------------------------------------------- tie to the source
    Gen/SrcRrel.v is regenerated from textx/scoping/rrel.py on every run (tools/translate/rrel_tr.py,
@@ -77,20 +77,42 @@ Proof. exact find_later_alt. Qed.
 Print Assumptions C11_later_alternative.
 
 (* ---------------------------------------------------------------- completeness
-   Full statement (not proved as one theorem):
-     forall F m sq o names T, siblings_unique m -> find F m true sq o names T false <> FOof ->
-       (exists t tr, justified m sq o names T t tr) -> find F m true sq o names T false <> FNone.
-   Proved, for every model, expression (any nesting of `*`), start, names, type, fuel:
-   (1) C11_complete_certified: if the set of visited keys a search leaves behind passes the
-       decidable closure check [closure_ok] (every visited key has all its successors handled: the
-       next guard's key is visited too, or the acceptance test fails), then no justified result
-       exists - so a cut at an already visited key or by prevent_doubles has lost nothing.  The
-       check evaluates [find_certified] on every "not found" answer of every generated case (it has
-       to be true); C11_closed_set_complete is the same for an arbitrary set of keys.
-   (2) C11_complete_partial: the same conclusion without any certificate for searches that were
-       never cut (find_hit = false).
-   Missing for the single theorem: that every failed search of the model leaves a closed set
-   ([fowp .. = (RNone, s) -> closure_ok .. (vis s) .. = true]); this is validated per case, not proved. *)
+   Under unique sibling names, for every model, expression (any nesting of `*`, ',' under `*`, ...),
+   start object, name list, target type and fuel: if find answers "not found" then no expansion of
+   the expression reaches a conforming object with all name parts consumed - equivalently, a
+   reference resolves (or is Postponed, or the model's fuel ran out: different answers) whenever
+   such an object exists.  The visited set keyed (object, node, remaining length, first_element)
+   and prevent_doubles lose nothing.  Proof (Proofs/RrelComplete.v): every failed search leaves a
+   set of visited keys that passes the closure check [closure_ok] (C11_search_leaves_closed_set:
+   induction over the CPS evaluator with a contract on continuations "returns not-found => the
+   static successor key is visited", distinct node positions, an invariant for prevent_doubles
+   entries modulo the pending ones), and a closed set admits no justified result
+   (C11_closed_set_complete).  C11_complete_uncut is the older direct result for searches that were
+   never cut (it also holds for the pre-repair key form). *)
+Theorem C11_complete : forall F m sq o names T px,
+  siblings_unique m -> find F m true sq o names T px = FNone ->
+  forall t tr, ~ justified m sq o names T t tr.
+Proof. exact find_complete. Qed.
+Print Assumptions C11_complete.
+
+Theorem C11_complete_resolves : forall F m sq o names T px,
+  siblings_unique m -> (exists t tr, justified m sq o names T t tr) ->
+  find F m true sq o names T px <> FNone.
+Proof. exact find_complete_exists. Qed.
+Print Assumptions C11_complete_resolves.
+
+(* for the key form the translator reads from rrel.py (re-proved against the source on every run) *)
+Theorem C11_complete_source : forall F m sq o names T px,
+  siblings_unique m -> find F m (key_has_first src_facts) sq o names T px = FNone ->
+  forall t tr, ~ justified m sq o names T t tr.
+Proof. exact find_complete_src. Qed.
+Print Assumptions C11_complete_source.
+
+Theorem C11_search_leaves_closed_set : forall F m sq o names T s,
+  fowp F m true sq o names T = (RNone, s) -> closure_ok F m names (vis s) sq o T = true.
+Proof. exact fowp_closed. Qed.
+Print Assumptions C11_search_leaves_closed_set.
+
 Theorem C11_complete_certified : forall F m kf sq o names T,
   siblings_unique m -> find_certified F m kf sq o names T = true ->
   forall t tr, ~ justified m sq o names T t tr.
@@ -111,12 +133,12 @@ Example C11_sample_certified :
 Proof. vm_compute. split; reflexivity. Qed.
 Print Assumptions C11_sample_certified.
 
-Theorem C11_complete_partial : forall F m kf sq o names T px,
+Theorem C11_complete_uncut : forall F m kf sq o names T px,
   siblings_unique m ->
   find F m kf sq o names T px = FNone -> find_hit F m kf sq o names T = false ->
   forall t tr, ~ justified m sq o names T t tr.
 Proof. exact find_complete_nohit. Qed.
-Print Assumptions C11_complete_partial.
+Print Assumptions C11_complete_uncut.
 
 (* the decidable form of the hypothesis used by the check's classifier *)
 Theorem C11_siblings_unique_decidable : forall t,
